@@ -16,6 +16,23 @@ def resolve(repo, modname, name):
     m = repo.module(modname)
     r = repo.resolve_binding(m, name)
     if r is None or r[0] not in ("func", "class"):
+        # the users of `name` may have moved to another module of the package that modname re-exports them from:
+        # look the name up in the home modules of the functions modname re-exports (it must be unambiguous)
+        found = {}
+        for bn in list(m.bindings):
+            try:
+                rb = repo.resolve_binding(m, bn)
+            except AnalysisError:
+                continue
+            if rb and rb[0] == "func" and rb[1].module is not m:
+                try:
+                    r2 = repo.resolve_binding(rb[1].module, name)
+                except AnalysisError:
+                    r2 = None
+                if r2 and r2[0] in ("func", "class"):
+                    found[id(r2[1])] = r2[1]
+        if len(found) == 1:
+            return next(iter(found.values()))
         raise AnalysisError(f"anchor vanished: {modname} no longer binds {name} to a function/class")
     return r[1]
 
@@ -235,7 +252,7 @@ class Model:
             summ.update(extra_summaries)
 
         def run(it):
-            recv = [] if m.kind == "staticmethod" else [cls]
+            recv = [] if (m.kind == "staticmethod" or m.cls is None) else [cls]
             r = it.call_func(m, recv + list(args), {})
             if force_bool and isinstance(r, Term) and r.sort == "bool":
                 return it.truth(r)      # split on a returned boolean term
